@@ -309,6 +309,9 @@ struct Plan
 		std::printf("list %d %d :", o, key);
 		for(int id : g_ids) std::printf(" %d", id);
 		std::printf("\n");
+		// the emptiness query must agree with what the enumeration found (a failed addition must not leave the
+		// object claiming listeners it does not have); the model has no such line
+		if(t.hasAnyListener(Key(key)) == g_ids.empty()) std::printf("emptiness-disagrees-with-enumeration %d %d\n", o, key);
 	}
 	template <typename T> void pending(T & t, int o)
 	{
@@ -464,6 +467,7 @@ struct Plan
 				std::printf("list %d %d :", o, key);
 				for(int id : g_ids) std::printf(" %d", id);
 				std::printf("\n");
+				if(cl(o).empty() != g_ids.empty()) std::printf("emptiness-disagrees-with-enumeration %d %d\n", o, key);
 				break;
 			}
 			case tD: listD(d(o), o, key); break;
